@@ -129,8 +129,8 @@ func acceptsMinimal(c *Ctx, fn *ssa.Function, m minimalEncoding) (bool, int) {
 }
 
 func checkC07(c *Ctx, r *Report) {
-	r.Explain = "Response decodings against specification tables, decided on bit provenance (engine E2): every decoder is evaluated symbolically into, per struct field, an expression over wire bits (bit tests, masks, shifts, little-endian composition, sign extension from 10/4 bits, BCD, optional tails as path sets) and the set over all success paths is compared with the table transcribed from IPMI v2.0/DCMI 1.5. Further: (a) the decoder accepts the specification's minimal encodings (a success path is satisfiable for the stated length and bytes), (b) both message checksums guard every success exit of the message decoder with the specified byte ranges, (c) the payload windows of the session wrappers are derived from the length field (so, with C05's bounds proof, a length exceeding the data is rejected), (d) bodies shorter than a layer's minimum are rejected (C05: every field read is behind a length guard). Decides layouts for all field values; string extraction arithmetic is C20 (not decided)."
-	r.NotDecided = []string{"packed 6-bit / BCD-plus character extraction arithmetic (loops; C20)", "fields listed under not_covered in the evidence (positions I could not justify independently, e.g. DCMI capability flag bytes, Get Session Info LAN tail, timestamps)", "SDR version BCD arithmetic"}
+	r.Explain = "Response decodings against specification tables, decided on bit provenance (engine E2): every decoder is evaluated symbolically into, per struct field, an expression over wire bits (bit tests, masks, shifts, little-endian composition, sign extension from 10/4 bits, BCD, optional tails as path sets) and the set over all success paths is compared with the table transcribed from IPMI v2.0/DCMI 1.5. Further: (a) the decoder accepts the specification's minimal encodings (a success path is satisfiable for the stated length and bytes), (b) both message checksums guard every success exit of the message decoder with the specified byte ranges, (c) the payload windows of the session wrappers are derived from the length field (so, with C05's bounds proof, a length exceeding the data is rejected), (d) bodies shorter than a layer's minimum are rejected (C05: every field read is behind a length guard). Decides layouts for all field values; the ID-string decoders are decided as bit functions per residue of the character index (shared with C20)."
+	r.NotDecided = []string{"fields listed under not_covered in the evidence (positions I could not justify independently, e.g. DCMI capability flag bytes, Get Session Info LAN tail, timestamps)", "SDR version BCD arithmetic"}
 	r.Trusted = []string{"go/types, go/ssa (x/tools v0.29.0)", "tables transcribed from IPMI v2.0 rev 1.1 and DCMI 1.5 (sections cited per layer)", "engine E1 for the absence of out-of-range reads"}
 
 	nc := map[string][]string{}
@@ -146,6 +146,9 @@ func checkC07(c *Ctx, r *Report) {
 	// "all ID-string encodings for every length": the 8-bit decoder is the identity on the
 	// first c bytes (rule shared with C20)
 	checkLatin1Decoders(c, r)
+	// ... and the two packed encodings extract, for every character index, the specified bits
+	// of the specified bytes (rule shared with C20)
+	checkPackedDecoders(c, r)
 	checkDCMIVersionGuards(c, r)
 	checkRejectedLayersNotAdded(c, r)
 
